@@ -50,6 +50,7 @@ func RunOnce(t *testing.T, sc *Scenario, prefix []int) (x *Exec) {
 			}
 		}()
 		synctest.Test(t, func(t *testing.T) {
+			epoch.Add(1)
 			x.wake = make(chan struct{}, 1)
 			x.start = time.Now()
 			cur.Store(x)
@@ -77,6 +78,45 @@ func RunOnce(t *testing.T, sc *Scenario, prefix []int) (x *Exec) {
 		})
 	}()
 	return x
+}
+
+// RunFree runs the scenario's threads as plain goroutines under the virtual clock
+// with no scheduler: no execution is current, so every instrumented operation and
+// every shim passes straight through to the real primitive. This is the body of the
+// separate free-running race-detector passes (the cooperative scheduler's hand-offs
+// are happens-before edges that would hide a missing lock from the detector).
+// Observations are not recorded; the only verdict is the race detector's.
+func RunFree(t *testing.T, sc *Scenario) (finished bool) {
+	x := &Exec{gs: map[int64]*G{}, free: true, Horizon: sc.Horizon}
+	if x.Horizon == 0 {
+		x.Horizon = time.Hour
+	}
+	func() {
+		defer func() {
+			if r := recover(); r != nil {
+				msg := fmt.Sprint(r)
+				if !strings.Contains(msg, "deadlock") && !strings.Contains(msg, "blocked goroutines") {
+					panic(r)
+				}
+			}
+		}()
+		synctest.Test(t, func(t *testing.T) {
+			epoch.Add(1)
+			x.start = time.Now()
+			x.doneC = make(chan struct{}) // made inside the bubble: waiting on it is durable
+			sc.Setup(x)
+			for _, f := range x.freeStart {
+				go f()
+			}
+			select {
+			case <-x.doneC:
+				finished = true
+			case <-time.After(x.Horizon):
+			}
+			synctest.Wait()
+		})
+	}()
+	return finished
 }
 
 func (x *Exec) loop() {
